@@ -55,6 +55,7 @@ def run(ch: Checker) -> None:
     ch.rule('C16.6', 'masking key: written by build on exactly the paths where `masked` holds, read by parse on exactly those paths, 4 bytes wide, '
                      'placed before the payload, and the payload is masked with the very key that was written', 2)
     ch.rule('C16.6b', 'apply_mask XORs payload byte i with key byte i % 4', 1)
+    ch.rule('C16.8', 'field order: extended length, then masking key, then payload -- the decoder consumes them in the order the encoder writes them', 2)
     ch.rule('C16.7', 'accept token = base64(sha1(key + GUID)) with the RFC 6455 GUID', 2)
 
     frame = prog.class_named('WebsocketFrame')
@@ -383,6 +384,56 @@ def run(ch: Checker) -> None:
             ch.bad('C16.6b', am, 'xor', blk)
     else:
         ch.bad('C16.6b', am, 'xor', shape)
+
+    # ---------------- C16.8 field order on both sides
+    n8 = 0
+    bad8 = None
+    for p in fpaths(gp):
+        if p.exit_kind != 'return':
+            continue
+        sym = Sym(p)
+        ext = key = data = None
+        for idx, st in p.stmts():
+            for c in walk_no_nested(st):
+                if isinstance(c, ast.Call) and attr_chain(c.func) == 'struct.unpack' and len(c.args) == 2 and _reads_of(sym.value(c.args[1], idx), raw_param, sym, idx) and ext is None:
+                    if any('payload_length ==' in f[0] and f[1] for f in p.facts(idx)):
+                        ext = idx
+            if isinstance(st, ast.Assign) and len(st.targets) == 1 and attr_chain(st.targets[0]) == 'self.mask' and _reads_of(sym.value(st.value, idx), raw_param, sym, idx):
+                key = idx if key is None else key
+            if isinstance(st, ast.Assign) and len(st.targets) == 1 and attr_chain(st.targets[0]) == 'self.data' and _reads_of(sym.value(st.value, idx), raw_param, sym, idx):
+                data = idx if data is None else data
+        order = [(n_, i) for n_, i in (('extended length', ext), ('masking key', key), ('payload', data)) if i is not None]
+        if len(order) >= 2:
+            n8 += 1
+            if [i for _, i in order] != sorted(i for _, i in order):
+                got = [n_ for n_, i in sorted(order, key=lambda x: x[1])]
+                bad8 = ('the decoder consumes %s, the wire order (and the encoder) is extended length, masking key, payload: frames with a %s are decoded from the wrong offsets'
+                        % (' then '.join(got), 'masking key and an extended length' if ext is not None and key is not None else 'masking key'), p.describe(24))
+    ch.check(bad8 is None and n8 > 0, 'C16.8', parse, 'decoder field order', 'extended length < masking key < payload on %d path(s)' % n8, bad8[0] if bad8 else 'no path reads two of the fields', witness=bad8[1] if bad8 else None)
+    n8 = 0
+    bad8 = None
+    for p in fpaths(gb):
+        if p.exit_kind != 'return':
+            continue
+        sym = Sym(p)
+        ext = key = data = None
+        for idx, st in p.stmts():
+            for c in walk_no_nested(st):
+                if isinstance(c, ast.Call) and isinstance(c.func, ast.Attribute) and c.func.attr == 'write' and c.args:
+                    v = sym.value(c.args[0], idx)
+                    if isinstance(v, ast.Call) and attr_chain(v.func) == 'struct.pack' and v.args and isinstance(v.args[0], ast.Constant) and str(v.args[0].value).lstrip('!><=') in ('H', 'Q') and len(v.args) == 2:
+                        ext = idx if ext is None else ext
+                    elif _is_key_expr(v):
+                        key = idx if key is None else key
+                    elif norm(v) == 'self.data' or (isinstance(v, ast.Call) and isinstance(v.func, ast.Attribute) and v.func.attr == 'apply_mask'):
+                        data = idx if data is None else data
+        order = [(n_, i) for n_, i in (('extended length', ext), ('masking key', key), ('payload', data)) if i is not None]
+        if len(order) >= 2:
+            n8 += 1
+            if [i for _, i in order] != sorted(i for _, i in order):
+                got = [n_ for n_, i in sorted(order, key=lambda x: x[1])]
+                bad8 = ('the encoder writes %s; RFC 6455 (and the decoder) put extended length, masking key, payload in that order' % ' then '.join(got), p.describe(24))
+    ch.check(bad8 is None and n8 > 0, 'C16.8', build, 'encoder field order', 'extended length < masking key < payload on %d path(s)' % n8, bad8[0] if bad8 else 'no path writes two of the fields', witness=bad8[1] if bad8 else None)
 
     # ---------------- C16.7 accept token
     ka = prog.own_method('WebsocketFrame', 'key_to_accept')
